@@ -6,7 +6,10 @@ import numpy as np
 
 from .. import viewrun as V
 from ..util import Tok, fmt_vec, HookAcc, DTYPES
-from ..c07_table import OPS, BY_OPNAME, HARNESS, NPT, LD, NOT_COMPILABLE, opname, c_common, c_promote
+from ..c07_table import OPS, BY_OPNAME, NPT, LD, NOT_COMPILABLE, opname, c_common, c_promote
+from ..c07_table import HARNESS as _TABLE_HARNESS
+
+HARNESS = list(_TABLE_HARNESS) + ["c07_kinds"]
 
 CLAIM = dict(
     technique="runtime monitoring: sanitizer-instrumented execution of every element-wise function on operands with unique values; two-layer oracle - (1) NumPy-broadcast index labels designate which operand elements feed each output element and the library's own scalar functor, applied to exactly those scalars in a plain loop, gives the reference element (exact comparison: same bits up to the sign of zero), (2) NumPy's ufunc / extended-precision formula as a cross-check where semantics coincide with C++",
@@ -377,7 +380,7 @@ def gen_cases(rng, tier):
                     opds = [make_opd(rng, form[i], types[i], o["dom"][i], t[i]) for i in range(3)]
                     cases.append(build_case(o, types, form, opds))
     cases += anchor_cases()
-    return cases
+    return cases + gen_kind_cases(rng, tier)
 
 
 def anchor_cases():
@@ -461,6 +464,10 @@ def case_objects(m):
 
 
 def expected(m):
+    if m.get("kinds"):
+        f = np.array(m["fdata"], dtype=np.int64).reshape(m["fshape"])
+        o = np.array(m["odata"], dtype=np.int64).reshape(m["oshape"])
+        return KIND_FN[m["fn"]](f, o) if m["order"] == 0 else KIND_FN[m["fn"]](o, f)
     """NumPy reference result (numpy array) of a case, or None if the function has no NumPy counterpart with identical rounding."""
     o, types, opds = case_objects(m)
     ref, cls = np_reference(o, types, [x.values() for x in opds], m.get("params"))
@@ -521,6 +528,8 @@ def _tol_bad(got, ref, rtag, xs):
 
 
 def oracle(ctx, cr):
+    if cr.m.get("kinds"):
+        return kinds_oracle(ctx, cr)
     m = cr.m
     op = m["op"]
     form = m.get("form", "-")
@@ -628,6 +637,63 @@ def oracle(ctx, cr):
         ctx.seen((op, form, tuple(tuple(s) for s in m["shapes"])))
     if n > 3 and len(ctx.samples) < 8 and ctx.rng.random() < 0.004:
         ctx.sample(dict(op=op, form=form, shapes=m["shapes"], result_shape=got.get("shape"), result_type=got["tag"], first_elements=got["data"][:6]))
+
+
+# ---------------------------------------------------------------------------------------------------------------
+# operand kinds (harness/c07_kinds.cpp): fixed-shape array x hybrid / dynamic array of lower or equal rank, both orders
+KIND_FIXED = {0: (2, 3), 1: (3, 2), 2: (2, 2, 3)}
+KIND_FN = {0: np.add, 1: np.subtract, 2: np.multiply}
+
+
+def gen_kind_cases(rng, tier):
+    out = []
+    for fcode, fs in KIND_FIXED.items():
+        # every shape (dim 1..len(fs), extents 1 or the fixed extent) that broadcasts with the fixed shape to the fixed shape
+        others = set()
+        for d in range(1, len(fs) + 1):
+            tail = fs[len(fs) - d:]
+            for mask in itertools.product((0, 1), repeat=d):
+                others.add(tuple(e if m_ else 1 for e, m_ in zip(tail, mask)))
+        for osh in sorted(others):
+            for okind in (0, 1):
+                for order in (0, 1):
+                    for fn in ((0, 1, 2) if tier != "quick" else (rng.randrange(3), 1)):
+                        nf, no = int(np.prod(fs)), int(np.prod(osh))
+                        fd = [100 + k for k in range(nf)]
+                        od = [1000 + 7 * k for k in range(no)]
+                        args = "%d %d %d %s %d %s %s" % (fn, order, fcode, fmt_vec(fd), okind, fmt_vec(list(osh)), fmt_vec(od))
+                        out.append(dict(op="uf_kinds", args=args, form="K", kinds=True, fn=fn, order=order, fshape=list(fs), oshape=list(osh), okind=okind, fdata=fd, odata=od,
+                                        shapes=[list(fs), list(osh)]))
+    return out
+
+
+def kinds_oracle(ctx, cr):
+    m = cr.m
+    cls = "%s:%s:%s" % ("fixed_first" if m["order"] == 0 else "fixed_second", "hybrid" if m["okind"] == 0 else "dynamic",
+                        "lower_rank" if len(m["oshape"]) < len(m["fshape"]) else "same_rank")
+    det = dict(case={k: v for k, v in m.items() if k not in ("args", "fdata", "odata")}, line=cr.line[:1500])
+    if cr.crash is not None:
+        ctx.violation("uf_kinds:%s:crash:%s" % (cls, cr.crash.kind()), "binary ufunc over (fixed %s, %s %s) died: %s" % (m["fshape"], "hybrid" if m["okind"] == 0 else "dynamic", m["oshape"], cr.crash.kind()),
+                      dict(det, stderr=cr.crash.stderr[-2500:]))
+        return
+    if cr.rec is None or cr.timeout:
+        return
+    if "error" in cr.rec:
+        ctx.violation("uf_kinds:%s:malformed_record" % cls, cr.rec["error"][:300], det)
+        return
+    ctx.ev()
+    f = np.array(m["fdata"], dtype=np.int64).reshape(m["fshape"])
+    o = np.array(m["odata"], dtype=np.int64).reshape(m["oshape"])
+    exp = KIND_FN[m["fn"]](f, o) if m["order"] == 0 else KIND_FN[m["fn"]](o, f)
+    got = cr.rec["V"]
+    if got is None:
+        ctx.violation("uf_kinds:%s:nothing" % cls, "binary ufunc over (fixed %s, other %s) returned Nothing" % (m["fshape"], m["oshape"]), det)
+        return
+    why = V.compare_np(got, exp)
+    if why:
+        ctx.violation("uf_kinds:%s:%s" % (cls, "shape" if why.startswith("shape") else "element"), "%s(%s) with a fixed-shape operand %s and a %s operand %s: %s" % (
+            KIND_FN[m["fn"]].__name__, "fixed, other" if m["order"] == 0 else "other, fixed", m["fshape"], "hybrid" if m["okind"] == 0 else "dynamic", m["oshape"], why), det)
+    ctx.seen(("uf_kinds", m["fn"], m["order"], m["okind"], tuple(m["fshape"]), tuple(m["oshape"])))
 
 
 def run(ctx):
